@@ -18,12 +18,12 @@ Proof. intros T K c input script H. rewrite (session_tls T K c input script fals
 Print Assumptions C09_handshake_gate.
 Print Assumptions C09_session_gate.
 
-(* a request is processed iff it is admitted: consistent, and - if it carries credentials - a
+(* a request is processed iff it is cleared: consistent, and - if it carries credentials - a
    request-auth callback is configured and accepts them; otherwise no handler runs and no response
    is written for it: the events are at most the failed ReqAuth, then Close *)
 Theorem C09_request_gate : forall T K c req script,
   let '(evs, oresp, script') := handle_batch T K c req script in
-  if admitted T c req then
+  if cleared T c req then
     evs = (if has_creds T req then [EReqAuth (req_auth_val T req) true] else []) ++ calls T c (rauth_of T req) (req_items T req) /\
     oresp = Some (build_response T c req
               (map (fun p => response_item T K (fst p) (snd p))
@@ -32,13 +32,13 @@ Theorem C09_request_gate : forall T K c req script,
 Proof. exact handle_batch_spec. Qed.
 Print Assumptions C09_request_gate.
 
-(* credentials without a configured callback, or rejected by it, are never admitted *)
-Theorem C09_not_admitted : forall T c req,
-  has_creds T req = true -> (c_req_auth c = false \/ req_auth_fn T (req_auth_val T req) = None) -> admitted T c req = false.
+(* credentials without a configured callback, or rejected by it, are never cleared *)
+Theorem C09_not_cleared : forall T c req,
+  has_creds T req = true -> (c_req_auth c = false \/ req_auth_fn T (req_auth_val T req) = None) -> cleared T c req = false.
 Proof.
-  intros T c req Hc [H|H]; unfold admitted; rewrite Hc, H; cbn [negb orb andb]; rewrite ?andb_false_r; reflexivity.
+  intros T c req Hc [H|H]; unfold cleared; rewrite Hc, H; cbn [negb orb andb]; rewrite ?andb_false_r; reflexivity.
 Qed.
-Print Assumptions C09_not_admitted.
+Print Assumptions C09_not_cleared.
 
 (* context: every handler invocation anywhere in the trace carries this connection's session id and
    session-auth value; within a batch it carries the request-auth value of THAT request - nil when the
